@@ -37,7 +37,8 @@ RULE = ("serial_conducted / thread_random: queue 1..6 x pop {1,2} x workers 1..3
         "(serial: forced by a conductor; thread: random sleeps); non-trivial = more jobs than free resource groups or than workers. "
         "serial_steps / thread_steps: queue 1..6 x pop 1..3 (also not dividing the queue) x workers 1..3 x 2..9 operations among submit k / "
         "return / raise / close(), every run-function released by the driver; all pops from -1 to len(queue)+2 for the constructor; "
-        "non-trivial = contention, a failure or a close()")
+        "non-trivial = contention, a failure or a close(). In every stream about 40% of the cases use a queue given by values (qspec): "
+        "equal entries (slots of a device), names, tuples, unhashable lists, 1 vs 1.0; judged as multisets on one token per class of equal values")
 CLAUSE = {1: "wrong_resource_count", 2: "resource_not_free", 3: "start_end_order", 4: "metadata", 5: "job_never_ran", 6: "resource_lost"}
 F_REPLAY = 1701
 F_XREPLAY = 1702
